@@ -1,16 +1,13 @@
 package main
-import ("fmt";"os";"time";"runtime/pprof";"github.com/gdamore/tcell/v2";"verif/faketty";"verif/props")
+import ("fmt";"github.com/gdamore/tcell/v2")
 func main(){
- ti:=props.Pristine("xterm-256color"); ti.PadChar=""
- for iter:=0; iter<200; iter++ {
- ft:=faketty.New(10,4)
- flip:=false
- ft.OnDrain=func(t *faketty.Tty){ flip=!flip; if flip {t.ResizeLocked(11,5)} else {t.ResizeLocked(10,4)} }
- s,_:=tcell.NewTerminfoScreenFromTtyTerminfo(ft,ti)
- ft.BeginApp(); s.Init()
- done:=make(chan struct{})
- go func(){ s.Show(); s.Suspend(); s.Resume(); s.Show(); s.Suspend(); s.Resume(); ft.BeginFini(); s.Fini(); close(done)}()
- select{ case <-done: case <-time.After(5*time.Second): fmt.Println("HANG at iter",iter); pprof.Lookup("goroutine").WriteTo(os.Stdout,1); os.Exit(1)}
- }
- fmt.Println("no hang")
+ var cb tcell.CellBuffer
+ cb.Resize(5,3)
+ st:=tcell.StyleDefault.Background(tcell.PaletteColor(0)).Bold(true)
+ for y:=0;y<3;y++{for x:=0;x<5;x++{cb.SetDirty(x,y,false)}}
+ cb.SetContent(4,2,'本',nil,st)
+ fmt.Println("dirty after set:", cb.Dirty(4,2))
+ cb.Fill(' ', tcell.StyleDefault)
+ fmt.Println("dirty after fill:", cb.Dirty(4,2))
+ r,_,s,w:=cb.GetContent(4,2); fmt.Printf("%q %+v %d\n",r,s,w)
 }
